@@ -29,12 +29,16 @@ def enc_bytes(b: bytes) -> str:
 
 def enc_off(n: int) -> str:
     assert 0 <= n < 65536, n
+    if n < 256:
+        return f'(q {_BX[n]})'
     return f'(o {_BX[n >> 8]} {_BX[n & 255]})'
 
 
 def enc_line(l) -> str:
     a, b, c = l
     assert 0 <= a < 65536 and 0 <= b < 65536 and 0 <= c < 65536
+    if a < 256 and b < 256 and c < 256:
+        return f'(l {_BX[a]} {_BX[b]} {_BX[c]})'
     return (f'(L {_BX[a >> 8]} {_BX[a & 255]} {_BX[b >> 8]} {_BX[b & 255]} '
             f'{_BX[c >> 8]} {_BX[c & 255]})')
 
@@ -77,6 +81,8 @@ def enc_z(n: int) -> str:
     if n < 0:
         return f'({n})%Z'
     assert n < 65536
+    if n < 256:
+        return f'(zq {_BX[n]})'
     return f'(zo {_BX[n >> 8]} {_BX[n & 255]})'
 
 
@@ -289,7 +295,7 @@ def gen_header(rng, style, ctype: bytes | None) -> bytes:
             for _ in range(rng.randint(1, 2)):
                 fold += gen_eol(rng, style) + rng.choice([b' ', b'\t', b'  ']) + \
                     rng.choice([b'more', b'', b'x y', b' '])
-        sep = rng.choice([b': ', b':', b' : ', b':\t'])
+        sep = rng.choice([b': '] * 12 + [b':'] * 4 + [b':\t'] * 2 + [b' : '])
         fields.append(name + sep + val + fold)
     if ctype is not None:
         fields.insert(rng.randint(0, len(fields)), b'Content-Type: ' + ctype)
@@ -309,7 +315,7 @@ def gen_entity(rng, style, depth: int, used: list) -> bytes:
     depth lasts."""
     r = rng.random()
     sep_kind = rng.random()
-    if depth > 0 and r < 0.45:
+    if depth > 0 and r < 0.55:
         bnd = rng.choice(_BOUNDARIES)
         if bnd in used and rng.random() < 0.8:
             bnd = bnd + b'%d' % depth
@@ -338,7 +344,7 @@ def gen_entity(rng, style, depth: int, used: list) -> bytes:
                 body += gen_text_lines(rng, style, 2)  # epilogue
         elif close < 0.9:
             body += b'--' + bnd + rng.choice([b' ', b'-', b'--x']) + gen_eol(rng, style)
-    elif depth > 0 and r < 0.65:
+    elif depth > 0 and r < 0.8:
         ctype = rng.choice([b'message/rfc822', b'message/rfc822', b'Message/RFC822',
                             b'message/rfc822; x=y'])
         body = gen_entity(rng, style, depth - 1, used)
@@ -492,10 +498,11 @@ def bs_of_sexp(x):
         return ('multi', subs)
     mt = (_val(x[0]) or b'').lower() if not isinstance(x[0], tuple) or x[0][0] == 'lit' else b''
     st = (_val(x[1]) or b'').lower() if len(x) > 1 and (not isinstance(x[1], tuple) or x[1][0] == 'lit') else b''
-    if mt == b'multipart':
-        return ('multi', [])     # pymap prints a multipart without parts as "subtype" only
-    if len(x) < 7:
-        # ("mixed" ...) : a multipart with no parts loses its leading lists
+    if len(x) < 7 or not isinstance(x[1], (bytes, tuple)) or \
+            (isinstance(x[1], tuple) and x[1][0] != 'lit'):
+        # ("mixed" ("boundary" ..) NIL NIL NIL): pymap prints a multipart without
+        # parts as its subtype followed by the extension data (not RFC 3501
+        # grammar, which wants at least one part: a matter for C07)
         return ('multi', [])
 
     def num(v, signed=False):
@@ -618,13 +625,34 @@ def pure_monitor(ctx, d: bytes, obs, rng, *, backend='pure') -> dict:
             'partials': pres, 'bs': bs}
 
 
+def phantom_parts(bs):
+    """part numbers of the empty text part that is printed for a multipart
+    without sub-parts (exactly one child: text, 0 octets, 0 lines — a real
+    part without lines has -1 lines)"""
+    out = []
+
+    def walk(p, b):
+        if b[0] == 'multi':
+            if b[1] == [('text', 0, 0)]:
+                out.append(p + [1])
+            for i, s in enumerate(b[1], 1):
+                walk(p + [i], s)
+        elif b[0] == 'msg':
+            walk(p if b[3][0] == 'multi' else p + [1], b[3])
+    walk([], bs)
+    return out
+
+
 def part_octets_monitor(ctx, bs, rep, get_body, get_mime, level) -> None:
+    phantoms = phantom_parts(bs)
     for p, n in rfc_parts(bs):
         body = get_body(p)
         if n == len(body):
             continue
         mime = get_mime(p)
-        if msg_on_path(bs, p):
+        if p in phantoms:
+            kind = 'multipart_without_parts'
+        elif msg_on_path(bs, p):
             kind = 'rfc822_part_numbering'
         elif mime and n == len(mime) + len(body):
             kind = 'size_includes_header'
@@ -638,10 +666,12 @@ def part_octets_monitor(ctx, bs, rep, get_body, get_mime, level) -> None:
 
 
 # ======================================================== end-to-end driver
-def stdlib_roundtrip(d: bytes) -> bytes:
-    """What stdlib mailbox alone makes of d: Maildir.add(MaildirMessage(d))
-    then bytes(get_message(key)) — the measured value of the model's [ser]
-    hypothesis (no pymap code involved)."""
+def stdlib_roundtrip(d: bytes) -> dict:
+    """What stdlib mailbox alone makes of d (no pymap code involved) — the
+    measured value of the model's [ser] hypothesis:
+      'append': Maildir.add(MaildirMessage(d)) then bytes(get_message(key));
+      'move'  : the same (the file is renamed);
+      'copy'  : add(MaildirMessage(get_message(key))) then bytes(get_message(key2))."""
     import mailbox
     import shutil
     import tempfile
@@ -649,7 +679,10 @@ def stdlib_roundtrip(d: bytes) -> bytes:
     try:
         md = mailbox.Maildir(tmp + '/m', create=True)
         key = md.add(mailbox.MaildirMessage(d))
-        return bytes(md.get_message(key))
+        loaded = bytes(md.get_message(key))
+        key2 = md.add(mailbox.MaildirMessage(md.get_message(key)))
+        copied = bytes(md.get_message(key2))
+        return {'append': loaded, 'move': loaded, 'copy': copied}
     finally:
         shutil.rmtree(tmp, ignore_errors=True)
 
@@ -759,7 +792,7 @@ def lit(v):
 
 
 def check_items(ctx, d: bytes, items, partials, rep, where: str, backend: str,
-                expect_loaded: bytes | None) -> bytes | None:
+                expect: dict | None) -> bytes | None:
     """Byte-exact monitor on the data items of one message (the original,
     its COPY or its MOVE).  Returns the bytes BODY[] delivered."""
     def fail(clause, what, kind, **more):
@@ -771,6 +804,7 @@ def check_items(ctx, d: bytes, items, partials, rep, where: str, backend: str,
         fail('body_verbatim', 'no BODY[] literal in the response', 'missing')
         return None
     eff = d
+    expect_loaded = None if expect is None else expect[where]
     if full != d:
         if expect_loaded is not None and expect_loaded != d:
             # stdlib mailbox does not give d back: hypothesis [ser d = d] is false here
